@@ -339,12 +339,18 @@ def DJ.valid : DJ → Json → Bool
   | .const v, x => constValidJ v x
   | .enum vs, x => enumValidJ vs x
 
+/-- the case satisfies the hypotheses of `c11_enum_scalar_instance` / `c11_enum_partial` / `c11_const_partial`. -/
+def DJ.inTheorem (d : DJ) (x : Json) : Bool :=
+  match d with
+  | .enum vs => Gozod.C11.scalarCase vs x || (Gozod.C11.goodEnumJ vs && instOK x)
+  | .const v => v.toPrim?.isSome && instOK x
+
 /-- the finding classes that can apply to this case: `composite-literal` only where the model itself predicts the panic
     (an array / object instance meeting an array / object member), so that any other disagreement is reported. -/
 def DJ.why (d : DJ) (x : Json) : List String :=
   (if parsePanicsJ d.members x then ["composite-literal"] else [])
   ++ (match d with
-      | .enum vs => if vs.any (fun v => v.isNull) then ["nullable-union"] else []
+      | .enum vs => if x.isNull && vs.any (fun v => v.isNull) && (allStrsJ vs).isNone then ["nullable-union"] else []
       | _ => [])
 
 /-- mirrors harness `intOnly`: numbers of the instance can only meet integer schemas. -/
@@ -405,7 +411,7 @@ def handle : List String → String
           match d.conv with
           | .ok s =>
             (if parsePanicsJ d.members x then "!" else b2s (acceptsDecoded s x)) ++ " " ++ b2s (d.valid x) ++ " ~ ~"
-              ++ "\t" ++ ",".intercalate (dedup (d.why x ++ instReasons x))
+              ++ "\t" ++ ",".intercalate ((if d.inTheorem x then ["IN-EQ"] else []) ++ dedup (d.why x ++ instReasons x))
           | .error _ => "conversion-failed"
         | _ => "bad-op"
       | none => "bad-op"
